@@ -2,6 +2,7 @@ use crate::{report::Report, Ctx};
 pub mod c18;
 pub mod c19;
 pub mod child;
+pub mod egprops;
 pub mod c05;
 pub mod c07;
 pub mod c10;
@@ -11,6 +12,9 @@ pub mod c17;
 
 pub fn run(prop: &str, ctx: &Ctx) -> Option<Report> {
     Some(match prop {
+        "C01" => egprops::run_c01(ctx),
+        "C04" => egprops::run_c04(ctx),
+        "C13" => egprops::run_c13(ctx),
         "C05" => c05::run(ctx),
         "C07" => c07::run(ctx),
         "C10" => c10::run(ctx),
